@@ -120,9 +120,18 @@ def complement(mol, s, warnings):
         by = {a.name: a for a in heavy}
         nat = by.get('N')
         cat = by.get('C')
-        # chain neighbours present: N bonded to a C of another residue, C bonded to an N of another residue
-        prev_ok = nat is not None and any(b.name == 'C' and b.res_num != nat.res_num or b.name == 'C' and b.icode != nat.icode for b in nat.bonded_atoms)
-        next_ok = cat is not None and any(b.name == 'N' and (b.res_num, b.icode) != (cat.res_num, cat.icode) for b in cat.bonded_atoms)
+        # chain neighbours present, decided from the coordinates (not from the program's own bond list): a carbonyl C of
+        # another residue within 1.5 A of N, an N of another residue within 1.5 A of C
+        def near(at, name):
+            if at is None:
+                return False
+            for b in conf.atoms:
+                if b.name == name and b.element != 'H' and (b.res_num, b.icode, b.chain_id) != (at.res_num, at.icode, at.chain_id):
+                    if (b.x - at.x) ** 2 + (b.y - at.y) ** 2 + (b.z - at.z) ** 2 < 1.5 ** 2:
+                        return True
+            return False
+        prev_ok = near(nat, 'C')
+        next_ok = near(cat, 'N')
         if not (prev_ok and next_ok):
             stats['no-chain-context'] += 1
             continue
@@ -131,7 +140,9 @@ def complement(mol, s, warnings):
         regular = True
         for an, (nb, nh) in rules.items():
             at = by.get(an)
-            if at is None or len([b for b in at.bonded_atoms if b.element != 'H']) != nb:
+            # regular covalent geometry, decided from the coordinates: exactly nb heavy atoms within 2.0 A
+            if at is None or sum(1 for b in conf.atoms if b is not at and b.element != 'H'
+                                 and (b.x - at.x) ** 2 + (b.y - at.y) ** 2 + (b.z - at.z) ** 2 < 4.0) != nb:
                 regular = False
         if not regular:
             stats['irregular'] += 1
@@ -165,6 +176,9 @@ def inputs(tier):
     # real ligands in their binding sites (fused, slightly non-planar rings)
     out.append(dict(src='corpus', d=corpus.cutout_desc('4DFR', 'B', 99, 9.0)))
     out.append(dict(src='corpus', d=corpus.cutout_desc('1HPX', 'A', 24, 9.0)))
+    # a modified residue written as HETATM inside a chain (selenomethionine-like): its neighbours keep their chain context
+    for key, ch, i in (('3SGB', 'E', 130), ('3SGB', 'E', 60), ('1HPX', 'A', 44)):
+        out.append(dict(src='hetero-in-chain', d=corpus.window_desc(key, ch, i, 7)))
     # metal sites: an ion at coordination distance from a protonatable nitrogen / oxygen
     out.append(dict(src='corpus', d=corpus.cutout_desc('1FTJ', 'A', 42, 9.0)))
     for ion, kind, dist in (('ZN', 'HIS', 2.1), ('ZN', 'HIS', 2.3), ('CA', 'ASP', 2.4), ('ZN', 'CYS', 2.3), ('MG', 'GLN', 2.1), ('FE', 'HIS', 2.2), ('ZN', 'LYS', 2.1)):
@@ -188,6 +202,15 @@ def plan(tier, seed):
 
 
 def build(case, seed):
+    if case['src'] == 'hetero-in-chain':
+        s = corpus.build(case['d'], seed)
+        keys = list(s.residues().keys())
+        mid = keys[3][:3]
+        for a in s.atoms:
+            if a.reskey == mid:
+                a.rec = 'HETATM'
+                a.resname = 'MSX'
+        return s
     if case['src'] == 'ligand':
         return gen.ligand(case['name'], 'L', 1, origin=(10000, 10000, 10000)).translate(gen.seed_offset(seed))
     if case['src'] == 'flat':
